@@ -104,8 +104,17 @@ def check_attempt(cs, head, wallet_keys_order, spent_record, used, amount, fee, 
             # If not, no wallet could build a valid transaction for this request and a refusal is the only right answer.
             from skepticoin.params import MAX_BLOCK_SIZE
             fit = (MAX_BLOCK_SIZE - (1 + 3 + 1 + 2 * 73)) // 101
-            best = sum(sorted((v for r, v in wouts.items() if r not in used), reverse=True)[:fit])
-            if best >= amount + fee:
+            desc = sorted((v for r, v in wouts.items() if r not in used), reverse=True)
+            best = sum(desc[:fit])
+            fit1 = (MAX_BLOCK_SIZE - (1 + 3 + 1 + 73)) // 101          # without a change output one more input fits
+            if sum(desc[:fit1]) == amount + fee:
+                best = amount + fee
+            if best >= amount + fee and 'too large' in str(e).lower():
+                # a valid transaction exists (take the largest outputs first) but the wallet's own selection order needs more
+                # inputs than fit in a block and it refuses: recorded defect, keyed apart from other refusals
+                viol.append(('feasible-spend-refused-as-too-large', "attempt (amount %d, fee %d) is refused (%s) although a valid "
+                             "transaction exists: the %d largest unused outputs sum to %d" % (amount, fee, str(e)[:44], fit, best)))
+            elif best >= amount + fee:
                 viol.append(('affordable-spend-fails', "attempt (amount %d, fee %d) fails (%s) although unused wallet outputs sum to %d"
                              % (amount, fee, str(e)[:40], available)))
             else:
@@ -303,12 +312,13 @@ def deep_world(arg):
 def big_world(arg):
     """a wallet holding more than a thousand unspent outputs (one key or two): single attempts that need few, many, all but
     one and all of them - every size-dependent branch of the collection loop is entered"""
-    pattern, N, two_keys, korder = arg
+    pattern, N, two_keys, korder = arg[:4]
+    part, nparts = (arg[4], arg[5]) if len(arg) > 4 else (0, 1)
     from skepticoin.coinstate import CoinState
     ledger.setup()
     seams.deterministic_wallet_signing()
     vals = {'5-ones-4': (5,) + (1,) * (N - 2) + (4,), 'ones': (1,) * N, 'ones-7': (1,) * (N - 1) + (7,),
-            '9-ones': (9,) + (1,) * (N - 1)}[pattern]
+            '9-ones': (9,) + (1,) * (N - 1), 'twos': (2,) * N}[pattern]
     dist = (vals[:N // 2], vals[N // 2:]) if two_keys else (vals, ())
     root, n1 = make_world(dist, False, False, 'asc')
     cs0 = CoinState.empty().add_block_no_validation(root.block).add_block(n1.block, n1.ts)
@@ -318,6 +328,18 @@ def big_world(arg):
     bad = []
     attempts = [(1, 0), (vals[0] + 1, 0), (100, 1), (255, 0), (256, 2), (N - 100, 0), (N - 1, 0), (N, 2), (N + 3, 2), (total - 2, 1),
                 (total - 1, 0), (total, 0), (total + 1, 0)]
+    if N >= 2000 and pattern == '5-ones-4' and not two_keys:
+        # the size limit exactly: the collection stops after k inputs when amount + fee = k + 4 - change; a transaction with two
+        # outputs holds 1,978 inputs, one with a single output 1,979
+        for k in (1978, 1979):
+            attempts += [(k + 4, 0), (k + 3, 0), (k + 2, 1)]
+        attempts += [(1984, 0)]
+    if pattern == 'twos':
+        # change is due whenever the amount is odd: 1,978 inputs and change fit, 1,979 inputs without change fit, 1,979
+        # inputs WITH change do not
+        attempts = [(2 * 1978 - 1, 0), (2 * 1978, 0), (2 * 1979 - 1, 0), (2 * 1979 - 2, 1), (2 * 1979, 0), (2 * 1979 - 1, 1), (2 * 1980 - 1, 0)]
+    # (the attempts of one world are independent single steps from the same state: they may be spread over workers)
+    attempts = attempts[part::nparts]
     for amount, fee in attempts:
         stats['transitions'] += 1
         viol, tx, after = check_attempt(cs0, n1, keys, frozenset(), frozenset(), amount, fee)
@@ -331,10 +353,11 @@ def big_world(arg):
 def big_worlds(ctx):
     N = 1100
     # (2,100 outputs: requests that need more inputs than fit in a block)
-    out = [('5-ones-4', N, False, 0), ('ones-7', N, False, 0), ('9-ones', N, True, 0), ('5-ones-4', 2100, False, 0)]
+    out = [('5-ones-4', N, False, 0), ('ones-7', N, False, 0), ('9-ones', N, True, 0), ('5-ones-4', 2100, False, 0), ('twos', 2100, False, 0)]
     if not ctx.quick:
         out += [('ones', N, False, 0), ('5-ones-4', N, True, 1), ('9-ones', 2100, True, 1)]
-    return out
+    # the large worlds first and in parts, so that no single worker carries the whole of one
+    return [w + (p, 7) for w in out if w[1] > 2000 for p in range(7)] + [w + (p, 2) for w in out if w[1] <= 2000 for p in range(2)]
 
 
 def deep_worlds(ctx):
